@@ -1,0 +1,20 @@
+//go:build verif
+
+// Contracts for the govc verifier (see /verif/DESIGN.md). Comment-only.
+// The store is a thin wrapper around badgerhold (outside reach): its operations are assumed contracts.
+
+package storage
+
+// The properties map of the record of a bundle id is one map object per (store, id): what a routing algorithm
+// writes into it is what it reads back (Update persists it; persistence itself is not decided here, see C08).
+// govc:ghostfield $qok bool
+// govc:trusted (*Store).QueryId
+//@ assigns s.$qok
+//@ ensures s.$qok == (err == nil)
+//@ ensures err == nil ==> bi.Properties != nil && bi.Properties == uf("propsOf", "map[string]interface{}", s, bid)
+
+// govc:trusted (*Store).Update
+//@ assigns nothing
+
+// govc:trusted (*Store).KnowsBundle
+//@ assigns nothing
